@@ -192,7 +192,8 @@ def fold_check(ck, u, eng, name, host_big, tag, proved):
             nonlocal lanes_seen
             bad = None
             lmap = ps[0].loops[level][1]
-            by_h = {h: (k_, pre) for k_, (h, pre) in lmap.items()}
+            # variables declared inside the loop body carry nothing from one iteration to the next (pre is None for them)
+            by_h = {h: (k_, pre) for k_, (h, pre) in lmap.items() if pre is not None}
             heads = set(by_h) | set(outer_heads)
             iters = [p for p in ps if p.end == 'loopback' and len(p.loops) == level + 1]
             exits = [p for p in ps if p.end == 'return' and len(p.loops) == level + 1]
@@ -236,8 +237,25 @@ def fold_check(ck, u, eng, name, host_big, tag, proved):
             h_acc = None
             posts = []
             inside = set(n.get('id') for n in cast.walk(ps[0].loops[level][0]))
+
+            def effects_inside(p):
+                """effects of the loop body, those of helpers the engine looked through included (enter/leave markers)"""
+                out, depth_in = [], 0
+                for e in p.effects:
+                    here = e.node is not None and e.node.get('id') in inside
+                    if e.kind == 'enter':
+                        if depth_in or here:
+                            depth_in += 1
+                        continue
+                    if e.kind == 'leave':
+                        if depth_in:
+                            depth_in -= 1
+                        continue
+                    if here or depth_in:
+                        out.append(e)
+                return out
             for p in iters:
-                eff = [e for e in p.effects if e.node is not None and e.node.get('id') in inside]
+                eff = effects_inside(p)
                 steps = [e for e in eff if e.kind == 'call' and e.name == 'crc16_octet']
                 other = [e for e in eff if e.kind in ('call', 'icall') and e.name != 'crc16_octet']
                 if other:
